@@ -98,6 +98,18 @@ fn allowed(tag: &str, frozen: bool) -> Option<Vec<&'static str>> {
                 CONFIG_FIELDS.to_vec()
             }
         }
+        // anybody may copy the group's staked-collateral settings onto a staked bank: exactly
+        // the seven fields the settings carry
+        "propagate_staked_settings" => vec![
+            "config.oracle_keys",
+            "config.asset_weight_init",
+            "config.asset_weight_maint",
+            "config.deposit_limit",
+            "config.total_asset_value_init_limit",
+            "config.oracle_max_age",
+            "config.risk_tier",
+        ],
+        "edit_staked_settings" | "init_staked_settings" => vec![],
         "configure_bank_oracle" | "set_fixed_oracle_price" => {
             vec!["config.oracle_setup", "config.oracle_keys", "config.fixed_price"]
         }
